@@ -699,6 +699,137 @@ def d8_loaded_documents(chk: Check, funcs: List[FuncInfo],
                 chk.fail(rid, fi, node, text + " truthiness", why)
 
 
+def d9_diff_sides(chk: Check) -> None:
+    """yaml-diff: the left document is document -L of the first file, the
+    right one document -R of the second file, and the Differ is built on
+    the left and compared to the right.  Sides are discovered from the
+    data flow (file index in args.yaml_files, option name), not from
+    variable names."""
+    from sa.coords import reaching_def
+    prog = chk.prog
+    chk.rule("C16-D9", "yaml-diff selects document -L from the first file "
+             "and document -R from the second, and compares left to right",
+             floor=3)
+    from rules.c17 import fn
+    fi = fn(prog, "yamlpath/commands/yaml_diff.py", "main")
+
+    def side_of(e: ast.AST, depth: int = 0) -> Set[str]:
+        """{'L'}, {'R'} or both/none: which side an expression's value
+        comes from."""
+        out: Set[str] = set()
+        for x in ast.walk(e):
+            t = src(x)
+            if t.endswith("yaml_files[0]") or "left_document_index" in t:
+                out.add("L")
+            if t.endswith("yaml_files[1]") or "right_document_index" in t:
+                out.add("R")
+        if depth < 4:
+            for x in ast.walk(e):
+                if isinstance(x, ast.Name):
+                    for a in walk_local(fi.node):
+                        if isinstance(a, ast.Assign):
+                            names = [y.id for t in a.targets
+                                     for y in ast.walk(t)
+                                     if isinstance(y, ast.Name)]
+                            if x.id in names and a.lineno < e.lineno:
+                                out |= side_of(a.value, depth + 1)
+        return out
+    calls = [c for c in walk_local(fi.node) if isinstance(c, ast.Call) and
+             src(c.func) == "get_doc" and len(c.args) == 3]
+    if len(calls) != 2:
+        raise AnalysisError("document selection calls of yaml-diff not found")
+    sides = []
+    for c in calls:
+        sd, si = side_of(c.args[1]), side_of(c.args[2])
+        text = src(c)
+        if len(sd) == 1 and sd == si:
+            chk.ok("C16-D9", fi, c, text, "stream and index both from side "
+                   + "".join(sd))
+            sides.append("".join(sd))
+        else:
+            chk.fail("C16-D9", fi, c, text,
+                     "the documents come from side {} but the index from "
+                     "side {}: another document than the one asked for is "
+                     "compared".format("/".join(sorted(sd)) or "?",
+                                       "/".join(sorted(si)) or "?"))
+            sides.append("?")
+    if sorted(sides) == ["L", "R"]:
+        chk.ok("C16-D9", fi, fi.node, "both sides selected", "one left, one "
+               "right document")
+    else:
+        chk.fail("C16-D9", fi, fi.node, "both sides selected",
+                 "the two selections are for sides {}".format(sides))
+
+
+def d10_twin_arms(chk: Check) -> None:
+    """yaml-merge writes its result either to --output FILE or to STDOUT by
+    two copies of the same code.  After renaming the destination the two
+    arms must be the same program: what differs between them is delivered
+    differently by the two routes (e.g. documents of a JSON stream run
+    together in the file but not on STDOUT)."""
+    import copy
+    prog = chk.prog
+    chk.rule("C16-D10", "the to-file and to-STDOUT arms of yaml-merge's "
+             "writer are identical up to the destination", floor=1)
+    from rules.c17 import fn, MERGE
+    fi = fn(prog, MERGE, "write_output_document")
+    chk.analysed(fi)
+    arms = [n for n in fi.node.body if isinstance(n, ast.If) and
+            len(n.body) == 1 and isinstance(n.body[0], ast.With) and n.orelse]
+    if len(arms) != 1:
+        raise AnalysisError("to-file / to-STDOUT arms not found")
+    w = arms[0].body[0]
+    fh = src(w.items[0].optional_vars) if w.items[0].optional_vars else None
+    if fh is None:
+        raise AnalysisError("output handle of the file arm not found")
+
+    class Norm(ast.NodeTransformer):
+        def visit_Name(self, node: ast.Name) -> ast.AST:
+            if node.id == fh:
+                return ast.Name(id="DEST", ctx=node.ctx)
+            return node
+
+        def visit_Attribute(self, node: ast.Attribute) -> ast.AST:
+            if src(node) == "sys.stdout":
+                return ast.Name(id="DEST", ctx=ast.Load())
+            return self.generic_visit(node)
+
+        def visit_Call(self, node: ast.Call) -> ast.AST:
+            node = self.generic_visit(node)  # type: ignore[assignment]
+            if isinstance(node.func, ast.Name) and node.func.id == "print":
+                node.keywords = [k for k in node.keywords
+                                 if not (k.arg == "file" and
+                                         isinstance(k.value, ast.Name) and
+                                         k.value.id == "DEST")]
+            return node
+
+    def norm(stmts: List[ast.stmt]) -> List[str]:
+        out = []
+        for st in stmts:
+            t = Norm().visit(copy.deepcopy(_strip_parents(st)))
+            out.append(ast.dump(t, annotate_fields=False))
+        return out
+    a, b = norm(w.body), norm(arms[0].orelse)
+    if a == b:
+        chk.ok("C16-D10", fi, arms[0], "file arm vs STDOUT arm",
+               "identical after renaming the destination")
+    else:
+        # first differing statement, for the report
+        k = next((i for i, (x, y) in enumerate(zip(a, b)) if x != y),
+                 min(len(a), len(b)))
+        where = w.body[k] if k < len(w.body) else w
+        chk.fail("C16-D10", fi, where, "file arm vs STDOUT arm",
+                 "the two arms differ (first at statement {} of the arm): "
+                 "the same merge result is written differently to a file "
+                 "than to STDOUT".format(k + 1))
+
+
+def _strip_parents(node: ast.AST) -> ast.AST:
+    """A parent-link-free clone (deepcopy would follow the links)."""
+    from sa.interproc import clone
+    return clone(node)
+
+
 def d5_ladders(chk: Check) -> None:
     """Output formatting branches on the class of the node; an arm for a
     subclass placed after the arm of its base class never runs (a date is a
@@ -736,3 +867,5 @@ def run(chk: Check) -> None:
     d5_ladders(chk)
     d6_every_document(chk, funcs)
     d8_loaded_documents(chk, funcs)
+    d9_diff_sides(chk)
+    d10_twin_arms(chk)
